@@ -44,5 +44,14 @@ def run_walks(ctx, kinds_wanted, ops_wanted, n_quick, n_thorough, regress_names=
             report.count("heuristic", replay["heuristic"])
             report.nontrivial(q)
         report.sample({"request": q, "implementation": exp, "model": ans})
+    if corr and not violations:
+        # the correspondence broke without a direct violation: search harder for a concrete failing state
+        extra = []
+        for i in range(n * 6):
+            prob, theme = ce.gen_problem(rng)
+            v, steps = walk.walk(prob, rng, extra, steps=14)
+            violations += [x for x in v if x["kind"] in kinds_wanted or x["kind"] == "hang"]
+            if len(violations) >= 3:
+                break
     report.cov["traces_validated_against_impl"] = n
     return corr, violations
